@@ -260,24 +260,24 @@ def sEmptyArr : St := initSt (.jv (.arr [])) []
 def tags (hs : List Outcome) : List Nat := hs.map Outcome.tag   -- 0 value 1 error 2 done 3 ctxErr 4 panic
 
 -- `1, 2` never cancelled: value, value, done, done …
-example : tags (history ⟨codeComma, never, noExt⟩ 50 5 sNull) = [0, 0, 2, 2, 2] := by decide
+example : tags (history ⟨codeComma, never, noExt⟩ 50 5 sNull) = [0, 0, 2, 2, 2] := by decide +kernel
 -- cancelled at poll 5 (the first instruction of the second call): value, ctxErr, done …  (cancel_prefix with m = 1)
-example : tags (history ⟨codeComma, fun j => decide (5 ≤ j), noExt⟩ 50 5 sNull) = [0, 3, 2, 2, 2] := by decide
+example : tags (history ⟨codeComma, fun j => decide (5 ≤ j), noExt⟩ 50 5 sNull) = [0, 3, 2, 2, 2] := by decide +kernel
 -- cancelled at poll 2, inside the first call: ctxErr at once (cancel_prompt, cancel_terminal)
-example : tags (history ⟨codeComma, fun j => decide (2 ≤ j), noExt⟩ 50 5 sNull) = [3, 2, 2, 2, 2] := by decide
-example : (next ⟨codeComma, fun j => decide (2 ≤ j), noExt⟩ 50 sNull).2.polls = 3 := by decide
+example : tags (history ⟨codeComma, fun j => decide (2 ≤ j), noExt⟩ 50 5 sNull) = [3, 2, 2, 2, 2] := by decide +kernel
+example : (next ⟨codeComma, fun j => decide (2 ≤ j), noExt⟩ 50 sNull).2.polls = 3 := by decide +kernel
 -- the hypotheses of cancel_prompt hold at the entry of `1, 2` when poll 0 is cancelled
 example : (0 : Int) ≤ (entry ⟨codeComma, fun _ => true, noExt⟩ sNull).pc ∧
-    (entry ⟨codeComma, fun _ => true, noExt⟩ sNull).pc < (codeComma.size : Int) := by decide
+    (entry ⟨codeComma, fun _ => true, noExt⟩ sNull).pc < (codeComma.size : Int) := by decide +kernel
 -- `1 | .[]`: the error raised by opiter, then done for ever (after_error_advancable_partial, opiter_error_balanced)
-example : tags (history ⟨codeIterOnOne, never, noExt⟩ 50 4 sNull) = [1, 2, 2, 2] := by decide
+example : tags (history ⟨codeIterOnOne, never, noExt⟩ 50 4 sNull) = [1, 2, 2, 2] := by decide +kernel
 -- `error("x"), 1`: the error, then the alternative of the re-entered opfork yields 1, then done
-example : tags (history ⟨codeErrorThenOne, never, extErrorThenOne⟩ 50 4 sNull) = [1, 0, 2, 2] := by decide
+example : tags (history ⟨codeErrorThenOne, never, extErrorThenOne⟩ 50 4 sNull) = [1, 0, 2, 2] := by decide +kernel
 -- the saved pc after these errors is the re-entered opiter / opfork
-example : (next ⟨codeIterOnOne, never, noExt⟩ 50 sNull).2.env.pc = 2 := by decide
-example : (next ⟨codeErrorThenOne, never, extErrorThenOne⟩ 50 sNull).2.env.pc = 1 := by decide
+example : (next ⟨codeIterOnOne, never, noExt⟩ 50 sNull).2.env.pc = 2 := by decide +kernel
+example : (next ⟨codeErrorThenOne, never, extErrorThenOne⟩ 50 sNull).2.env.pc = 1 := by decide +kernel
 -- `.[]` on `[]`: done, and done again on every extra call (the D7 witness; exhausted_terminal)
-example : tags (history ⟨codeIter, never, noExt⟩ 50 4 sEmptyArr) = [2, 2, 2, 2] := by decide
-example : (next ⟨codeIter, never, noExt⟩ 50 sEmptyArr).1.tag = 2 := by decide
+example : tags (history ⟨codeIter, never, noExt⟩ 50 4 sEmptyArr) = [2, 2, 2, 2] := by decide +kernel
+example : (next ⟨codeIter, never, noExt⟩ 50 sEmptyArr).1.tag = 2 := by decide +kernel
 
 end Gojq.C07
